@@ -202,6 +202,15 @@ func (fv *FuncVC) assume(t Term) {
 	fv.assertBlk = append(fv.assertBlk, b)
 }
 
+// assumeGlobal records a fact that does not depend on the program point (facts about
+// global addresses, literals, interface boxing, tables): never sliced away.
+func (fv *FuncVC) assumeGlobal(t Term) {
+	save := fv.curBlock
+	fv.curBlock = nil
+	fv.assume(t)
+	fv.curBlock = save
+}
+
 // ancestors returns the set of blocks from which block b is reachable along
 // forward (non-back) edges, including b itself.
 func (fv *FuncVC) ancestors(b *ssa.BasicBlock) map[int]bool {
